@@ -4,6 +4,7 @@ package checks
 
 import (
 	"fmt"
+	"github.com/massnetorg/mass-core/massutil"
 	"math"
 	"os"
 	"strings"
@@ -94,6 +95,37 @@ func (r *replayer) crashAndRestart(t *rapid.T, mode string) {
 	}
 }
 
+// restartClean stops the instance cleanly, starts it through the real Start() (catch-up + goroutines),
+// waits until background work is finished and returns to stepped mode.
+func (r *replayer) restartClean(t *rapid.T) {
+	if err := r.env.StopWallet(); err != nil {
+		t.Fatalf("HARNESS-ERROR: %v", err)
+	}
+	if err := r.env.Open(false); err != nil {
+		t.Fatalf("the wallet does not open after a clean stop: %v", err)
+	}
+	if err := r.env.W.Start(); err != nil {
+		t.Fatalf("WalletManager.Start fails after a clean stop: %v", err)
+	}
+	deadline := time.Now().Add(60 * time.Second)
+	for r.taskPendingQuiet() {
+		if time.Now().After(deadline) {
+			t.Fatalf("after the final restart the running wallet does not finish its background work within 60 s\n  wallets: %s\n%s", r.walletsLine(), guard.AllStacks())
+		}
+		time.Sleep(time.Millisecond)
+	}
+	o := guard.Call(30*time.Second, func() { r.env.W.Stop() })
+	if o.Kind != "done" {
+		t.Fatalf("HARNESS-ERROR: Stop of an idle wallet did not return (%s) - see C20", o.Kind)
+	}
+	if err := r.env.Open(false); err != nil {
+		t.Fatalf("the wallet does not open after a clean stop: %v", err)
+	}
+	if err := r.env.StartStepped(); err != nil {
+		t.Fatalf("HARNESS-ERROR: %v", err)
+	}
+}
+
 func (r *replayer) taskPendingQuiet() bool {
 	wl, err := r.env.W.Wallets()
 	if err != nil {
@@ -141,12 +173,30 @@ func (r *replayer) redo(t *rapid.T, s hstep) {
 
 func propC06(t *rapid.T) {
 	twin := genHistory(t, true)
+	// optional tail: a user operation, then a reorganisation to a branch of EQUAL length as the last
+	// chain event (a restarted wallet cannot see it from the height alone)
+	tail := false
+	if rapid.IntRange(0, 2).Draw(t, "equalLengthTail") == 0 && twin.node.Height() >= 2 && len(twin.wallets) > 0 {
+		m := twin.wallets[0]
+		if ready, rem, ex := twin.walletStatus(t, m.id); ex && ready && !rem && len(m.issued) < 8 {
+			if _, err := twin.issueAddress(t, m, massutil.AddressClassWitnessV0); err == nil {
+				tail = true
+			}
+		}
+		twin.forcedReorgDepth = rapid.IntRange(1, 2).Draw(t, "tailDepth")
+		twin.forcedEqualLength = true
+		twin.actReorg(t)
+		twin.deliverAll(t)
+		twin.finishTasks(t)
+		twin.auditLedger(t)
+		twin.flag("equal-length-reorg-tail")
+	}
 	script := twin.script
 	want := observe(t, twin.env)
 	histKey := hkey(strings.Join(twin.journal, "\n"))
 	twin.close()
 	// crash-free replay: number of commits, and sanity of the recording
-	var total int64
+	var total, lastAddrCommit int64
 	{
 		ctl := xdb.NewCtl()
 		r := newReplayer(t, ctl)
@@ -156,6 +206,9 @@ func propC06(t *rapid.T) {
 			base := ctl.Commits()
 			for _, s := range script {
 				r.step(t, s)
+				if s.Kind == "newAddress" {
+					lastAddrCommit = ctl.Commits() - base
+				}
 			}
 			r.converge(t)
 			total = ctl.Commits() - base
@@ -181,10 +234,14 @@ func propC06(t *rapid.T) {
 		for i := 0; i < n; i++ {
 			cs = append(cs, int64(rapid.IntRange(1, int(total)).Draw(t, "crashAfterCommit")))
 		}
+		if tail && lastAddrCommit > 0 {
+			cs[0] = lastAddrCommit // the process dies right after the last user operation, before the final chain event
+		}
 	}
 	for _, c := range cs {
 		mode := rapid.SampledFrom([]string{"live", "stepped", "stepped-catchup"}).Draw(t, "restartMode")
 		second := rapid.IntRange(0, 3).Draw(t, "secondCrash") == 0
+		nodeMoves := rapid.Bool().Draw(t, "nodeMovesWhileDown")
 		ctl := xdb.NewCtl()
 		r := newReplayer(t, ctl)
 		func() {
@@ -192,6 +249,7 @@ func propC06(t *rapid.T) {
 			ctl.FreezeAfter = ctl.Commits() + c
 			crashes := 0
 			crashStep := ""
+			movedWhileDown, skipTo := 0, 0
 			for i := 0; i < len(script); i++ {
 				s := script[i]
 				r.step(t, s)
@@ -201,6 +259,24 @@ func propC06(t *rapid.T) {
 				crashes++
 				if crashStep == "" {
 					crashStep = s.Kind
+				}
+				opReturned := r.lastDone // whether the interrupted user operation had reported success
+				// the node does not wait for the wallet: if the history continues with chain changes (a
+				// run of blocks / a reorganisation and their announcement), they may happen while the
+				// wallet is down - the announcement then reaches nobody
+				if nodeMoves && crashes == 1 {
+					j := i + 1
+					for ; j < len(script); j++ {
+						k := script[j].Kind
+						if k != "attach" && k != "detach" && k != "announce" {
+							break
+						}
+						if k != "announce" {
+							r.step(t, script[j])
+						}
+						movedWhileDown++
+					}
+					skipTo = j - 1
 				}
 				m := mode
 				if crashes > 1 && m == "live" {
@@ -217,18 +293,36 @@ func propC06(t *rapid.T) {
 				} else {
 					r.crashAndRestart(t, m)
 				}
+				r.lastDone = opReturned
 				r.redo(t, s)
 				if ctl.Frozen() { // the second crash fell into the repeated operation
 					crashes++
 					r.crashAndRestart(t, "stepped")
 					r.redo(t, s)
 				}
+				if skipTo > i {
+					i = skipTo
+					skipTo = 0
+				}
 			}
 			if ctl.Frozen() {
 				r.crashAndRestart(t, "stepped")
 			}
 			ctl.Unfreeze()
-			r.converge(t)
+			if crashes > 0 {
+				// announcements that were queued when the process died are lost for good; what makes up for
+				// them is the wallet's own start-up catch-up. So: process what is still queued, finish
+				// background work, then one clean restart through the real Start() - and no extra hint.
+				for len(r.env.Queue) > 0 {
+					if _, err := r.env.Deliver(); err != nil {
+						r.log = append(r.log, fmt.Sprintf("final deliver -> %v", err))
+					}
+				}
+				r.finishTasks(t)
+				r.restartClean(t)
+			} else {
+				r.converge(t)
+			}
 			if ctl.Frozen() {
 				t.Fatalf("HARNESS: still frozen")
 			}
@@ -242,7 +336,11 @@ func propC06(t *rapid.T) {
 			if crashes == 0 {
 				lbl = "crash-point-not-reached"
 			}
-			c06.Case(hkey(histKey, c, mode, second), nontrivial, lbl, "restart:"+mode, fmt.Sprintf("crashes:%d", crashes))
+			moved := "node-moved-while-down:no"
+			if movedWhileDown > 0 {
+				moved = "node-moved-while-down:yes"
+			}
+			c06.Case(hkey(histKey, c, mode, second, nodeMoves), nontrivial, lbl, "restart:"+mode, fmt.Sprintf("crashes:%d", crashes), moved)
 			if nontrivial {
 				c06.Sample(lbl+"/"+mode, 1, map[string]interface{}{"crash_after_commit": c, "of": total, "mode": mode, "crashes": crashes, "history": twin.journal, "replay_log": r.log})
 			}
